@@ -70,4 +70,26 @@ def showOptNat : Option Nat → String
   | some k => toString k
   | none => "N"
 
+/-- Serve the line protocol on stdin/stdout: one request `<op> <argument>` per line, one
+answer per line prefixed `=> `; unknown or malformed requests answer `=> bad-op`. -/
+def answer (handle : String → String → Option String) (line : String) : String :=
+  let l := tok line
+  let (op, arg) := match l.splitOn " " with
+    | [] => ("", "")
+    | o :: rest => (o, String.intercalate " " rest)
+  match handle op arg with
+  | some r => "=> " ++ r
+  | none => "=> bad-op"
+
+partial def serveLoop (handle : String → String → Option String) (h out : IO.FS.Stream) : IO Unit := do
+  let line ← h.getLine
+  if line.isEmpty then return ()
+  out.putStrLn (answer handle line)
+  serveLoop handle h out
+
+def serve (handle : String → String → Option String) : IO Unit := do
+  let out ← IO.getStdout
+  serveLoop handle (← IO.getStdin) out
+  out.flush
+
 end Artap.Proto
